@@ -1,6 +1,8 @@
 From RsdnsModel Require Import Base GenHeader Cursor Names Labels Header RData Reader RecordSet.
 From RsdnsModel.Spec Require Import LinearPass.
 From RsdnsModel.Proofs Require Import CursorSafe LabelsSound Chase FromMsg NameRefEq ParseSpec.
+From RsdnsModel.Spec Require Import RDataWire.
+From RsdnsModel.Proofs Require Import RDataRT MessageRT EndToEnd.
 From RsdnsModel.Properties Require Import C06.
 Open Scope N_scope.
 Check (C06_result_is_chain_end : forall msg ty rclass r fuel qname hs name ttl data,
@@ -44,4 +46,15 @@ Check (C06_from_msg_on_parsed_message : forall msg nq an ns ar qs rs e1 e2,
     let* (name, ttl, data) := chase msg (S (length hs)) ty r4 (c_with_pos msg 12) (a_class q) hs in
     let* (t, _) := read_name msg Heap name in
     Ok (mkRRset t (a_class q) ttl data)).
-Print Assumptions C06_result_is_chain_end. Print Assumptions C06_chain_end_is_returned. Print Assumptions C06_nothing_qualifies_is_noanswer. Print Assumptions C06_always_terminates. Print Assumptions C06_from_msg_is_chase. Print Assumptions C06_match_is_decoded_equality. Print Assumptions C06_from_msg_on_parsed_message.
+Check (C06_direct_answers_end_to_end : forall msg q rs an ns ar e1 e2 h ty,
+  lenN msg <= 65535 -> 12 <= lenN msg -> questions_stand msg 12 [q] e1 -> records_stand msg e1 rs e2 ->
+  lenN rs = an + ns + ar -> an <= 65535 -> ns <= 65535 -> ar <= 65535 ->
+  read_header msg (c_new msg) = (c_set_pos (c_new msg) 12, Ok h) ->
+  h_qd h = 1 /\ h_an h = an /\ h_ns h = ns /\ h_ar h = ar ->
+  flag_qr (h_flags h) = true -> flag_tc (h_flags h) = false ->
+  forall x xs, filter (sem_match q ty) (firstn (N.to_nat an) rs) = x :: xs -> flag_rcode (h_flags h) = 0 ->
+  from_msg msg ty =
+  Ok (mkRRset (qtext q) (sq_class q) (fold_left N.min (map sr_ttl (x :: xs)) 4294967295)
+              (map (fun y => rdata_val (sr_data y)) (x :: xs)))).
+Check (C06_end_to_end_example : from_msg example_msg T_A = Ok (mkRRset [x61; x2e] 1 60 [RD_A 16909060])).
+Print Assumptions C06_result_is_chain_end. Print Assumptions C06_chain_end_is_returned. Print Assumptions C06_nothing_qualifies_is_noanswer. Print Assumptions C06_always_terminates. Print Assumptions C06_from_msg_is_chase. Print Assumptions C06_match_is_decoded_equality. Print Assumptions C06_from_msg_on_parsed_message. Print Assumptions C06_direct_answers_end_to_end. Print Assumptions C06_end_to_end_example.
